@@ -78,6 +78,32 @@ func (e *Exec) toNative(v Value, t types.Type) (interface{}, bool) {
 			}
 			return e.toNative(x.v, x.t)
 		}
+		if mv, ok := x.v.(MapV); ok {
+			mt, _ := x.t.Underlying().(*types.Map)
+			if mt != nil && mv.obj != nil {
+				md := mv.obj.val.(*MapData)
+				out := map[string]interface{}{}
+				for i, k := range md.keys {
+					if md.dead[i] {
+						continue
+					}
+					ks, ok := e.toNative(k, mt.Key())
+					if !ok {
+						return nil, false
+					}
+					kstr, isStr := ks.(string)
+					if !isStr {
+						return nil, false
+					}
+					n, ok := e.toNative(md.vals[i], mt.Elem())
+					if !ok {
+						return nil, false
+					}
+					out[kstr] = n
+				}
+				return out, true
+			}
+		}
 		if sl, ok := x.v.(SliceV); ok {
 			st, _ := x.t.Underlying().(*types.Slice)
 			if st != nil {
